@@ -15,7 +15,7 @@ HERE = os.path.dirname(os.path.abspath(__file__))
 HARNESS = os.path.abspath(os.path.join(HERE, '..', 'witness', 'witness_harness.rs'))
 
 SUITES = {
-    'C01': ['pipeline', 'loop'], 'C02': ['loop', 'block'], 'C03': ['pipeline', 'loop', 'subs'], 'C04': ['loop', 'subs', 'twostores'],
+    'C01': ['pipeline', 'loop'], 'C02': ['loop', 'block'], 'C03': ['pipeline', 'loop', 'subs'], 'C04': ['loop', 'subs', 'twostores', 'block'],
     'C05': ['channel', 'block'], 'C06': ['channel', 'balance'], 'C07': ['pipeline', 'loop', 'subs', 'latereg'], 'C08': ['loop'], 'C09': ['subs'],
     'C10': ['channeled'], 'C11': ['pipeline'], 'C12': ['pipeline'], 'C14': ['iter'], 'C15': ['subs', 'loop'], 'C16': ['selector'],
     'C17': ['builder'], 'C18': ['pipeline', 'loop', 'channel', 'balance'], 'C19': ['twostores'],
